@@ -262,7 +262,8 @@ def _judge(
             chk.violation(key, what, {**wit, "logical_payload_bytes": logical})
     if ecap is not None and ext is not None and upload_ref is not None and not uploads and o["kind"] == "error" and o.get("cap_error") == "external":
         chk.hit("external_overshoot_refused_before_upload")
-        if upload_ref <= ecap:
+        # exchange uploads carry the sealed cursor token, whose length jitters by a few bytes between runs
+        if upload_ref + (jitter if kind == "exchange" else 0) <= ecap:
             if ext.get("compression") is None:
                 chk.violation(f"within_external_cap_refused:{kind}", "an upload that fits max_externalized_response_bytes was refused", wit)
             else:
